@@ -186,13 +186,25 @@ def visitor_then_mark(facts):
         rets = [i for i, bl in enumerate(b.blocks) if bl["term"]["k"] == "return"]
         marks = {i for i, t in b.calls() if callee_name(t["f"]).endswith("non_backtracking_dfs") or norm_path(t["f"]["path"]).endswith("VisitMap::visit")}
         n = 0
+        # which parameter is the function's own node: the one the entry test-and-set marks (position-independent)
+        own = 2
+        for i, t in b.calls():
+            if norm_path(t["f"]["path"]).endswith("VisitMap::visit") and all(b.dominates(i, j) for j, _ in b.calls()) and len(t["args"]) > 1:
+                ps = [x[1] for x in named_roots(b, t["args"][1]) if x[0] == "arg"]
+                if len(ps) == 1:
+                    own = ps[0]
+
+        def marked(m):
+            a = b.blocks[m]["term"]["args"]
+            k = own - 1 if callee_name(b.blocks[m]["term"]["f"]).endswith("non_backtracking_dfs") else 1
+            return named_roots(b, a[k]) if len(a) > k else set()
         for i, t in b.calls():
             f = t["f"]
             if f.get("trait") not in ("core::ops::FnMut", "core::ops::Fn", "core::ops::FnOnce"):
                 continue
             n += 1
             tgt = named_roots(b, t["args"][1]) if len(t["args"]) > 1 else set()
-            good = {m for m in marks if m != i and (named_roots(b, b.blocks[m]["term"]["args"][1]) & tgt if len(b.blocks[m]["term"]["args"]) > 1 else False)}
+            good = {m for m in marks if m != i and marked(m) & tgt}
             esc = [r_ for r_ in rets if succ[i] and r_ in reach(b, succ[i][0], avoid=good)]
             o.check(b, "visitor#%d" % n, t["line"], bool(good) and not esc, "the visited node is always marked (recursive call) after the callback",
                     "after visitor(target) some path reaches the return without traversing / marking target: the node has been paired by the "
